@@ -61,7 +61,7 @@ type EventBus struct {
 	afterPublish     PublishHook
 	beforePublishCtx PublishHookContext
 	afterPublishCtx  PublishHookContext
-	wg               sync.WaitGroup
+	wg               asyncGroup
 
 	// Optional persistence fields (nil if not using persistence)
 	store                   EventStore
@@ -77,6 +77,41 @@ type EventBus struct {
 
 	// Optional observability (metrics & tracing)
 	observability Observability
+}
+
+// asyncGroup counts the in-flight async handlers. Unlike sync.WaitGroup it may
+// be waited on while other goroutines add to it, which Wait/Shutdown running
+// concurrently with Publish requires (a sync.WaitGroup forbids Add from zero
+// concurrent with Wait and panics when it is reused before Wait has returned).
+type asyncGroup struct {
+	mu   sync.Mutex
+	n    int
+	idle chan struct{} // closed when n returns to zero; nil while n is zero
+}
+
+func (g *asyncGroup) Add(delta int) {
+	g.mu.Lock()
+	if g.n == 0 && delta > 0 {
+		g.idle = make(chan struct{})
+	}
+	g.n += delta
+	if g.n == 0 && g.idle != nil {
+		close(g.idle)
+		g.idle = nil
+	}
+	g.mu.Unlock()
+}
+
+func (g *asyncGroup) Done() { g.Add(-1) }
+
+// Wait blocks until the count has been zero at some moment after the call.
+func (g *asyncGroup) Wait() {
+	g.mu.Lock()
+	idle := g.idle
+	g.mu.Unlock()
+	if idle != nil {
+		<-idle
+	}
 }
 
 // TypeNamer is an optional interface that events can implement to provide
